@@ -8,7 +8,8 @@ A world (JSON-able dict):
   req        ordered list of requested names
   nsrc       number of sources; src[s][m] in {'ok', 'notfound', 'error'}          (default: source 0 holds everything)
   variant    {m: k} which of several distinct healthy texts source s supplies is (m, s) -> text id  (C08)
-  text       {m: kind}  healthy | empty | comment | lexerr | synerr | truncated | dupsym | badimport | twomods | misnamed
+  text       {m: kind}  healthy | empty | comment | lexerr | synerr | truncated | dupsym | badimport | twomods | misnamed |
+                        bundle (two modules, the first importing from the second)
   symerr     [m...]  the symbol-table generator raises PySmiSemanticError for m
   generr     [m...]  the code generator raises PySmiCodegenError for m
   searchers  list of {'honours_rebuild': bool, 'ans': {m: 'fresh' | 'absent' | 'error' | 'normal'}}
@@ -77,6 +78,11 @@ def source_text(world, s, m):
             'END', 'z%s OBJECT IDENTIFIER ::= { nosuchSymbol 1 }\nEND' % m)
     if kind == 'twomods':
         return good + '%sX DEFINITIONS ::= BEGIN\nw%s OBJECT IDENTIFIER ::= { 1 3 6 1 4 1 5%d }\nEND\n' % (m, m, USER.index(m))
+    if kind == 'bundle':
+        # a vendor file holding two modules, the first importing from the second BY ITS MODULE NAME: that name is queued for
+        # look-up although no source has a file called like it - the module is already there
+        return good.replace('IMPORTS ', 'IMPORTS w%s FROM %sX\n    ' % (m, m), 1) + \
+            '%sX DEFINITIONS ::= BEGIN\nw%s OBJECT IDENTIFIER ::= { 1 3 6 1 4 1 5%d }\nEND\n' % (m, m, USER.index(m))
     if kind == 'misnamed':
         return module_text(world, m, variant, name=m + 'REAL')
     raise ValueError(kind)
@@ -89,7 +95,7 @@ def file_modules(world, m):
         return None
     if kind in ('empty', 'comment'):
         return []
-    if kind == 'twomods':
+    if kind in ('twomods', 'bundle'):
         return [m, m + 'X']
     if kind == 'misnamed':
         return [m + 'REAL']
@@ -188,6 +194,9 @@ class Searcher(object):
         if rebuild and self.spec.get('honours_rebuild', True):
             return
         ans = self.spec.get('ans', {}).get(mibname, 'absent')
+        if mibname in self.spec.get('copy', {}):
+            # a transformed copy with a modification time, compared the way the file searchers do
+            ans = 'fresh' if self.spec['copy'][mibname] >= mtime else 'absent'
         if ans == 'fresh':
             raise error.PySmiFileNotModifiedError('fresh %s' % mibname, searcher=self)
         if ans == 'absent':
@@ -211,7 +220,8 @@ class BorrowReader(object):
         self.log.append(('borrow', self.idx, mibname, bool(options.get('genTexts'))))
         ans = self.spec.get('ans', {}).get(mibname, 'absent')
         if ans == 'has':
-            return MibInfo(path='borrow%d://%s' % (self.idx, mibname), file=mibname + '.json', name=mibname, mtime=2000), \
+            return MibInfo(path='borrow%d://%s' % (self.idx, mibname), file=mibname + '.json', name=mibname,
+                           mtime=self.spec.get('mtime', {}).get(mibname, BORROWED_MTIME)), \
                 'BORROWED-%d-%s' % (self.idx, mibname)
         if ans == 'error':
             raise error.PySmiReaderError('injected borrower error %s' % mibname, reader=self)
@@ -266,11 +276,20 @@ def run_world(world, budget=4000):
 
 # --------------------------------------------------------------------------- reference model
 
-def first_fresh(world, m, rebuild):
+SOURCE_MTIME = 1000
+BORROWED_MTIME = 2000
+
+
+def first_fresh(world, m, rebuild, mtime=SOURCE_MTIME):
     """Does the searcher list declare m up to date?  (asked in the order added; errors and absences are skipped;
-    rebuild silences protocol-following searchers but not stub lists)"""
+    rebuild silences protocol-following searchers but not stub lists).  mtime: that of the text being considered -
+    the source's before compiling, the borrowable copy's before borrowing."""
     for s in world.get('searchers', []):
         if rebuild and s.get('honours_rebuild', True):
+            continue
+        if m in s.get('copy', {}):
+            if s['copy'][m] >= mtime:
+                return True
             continue
         if s.get('ans', {}).get(m, 'absent') == 'fresh':
             return True
@@ -385,7 +404,7 @@ def reference(world):
         if got is None:
             continue
         del failed[m]
-        if first_fresh(world, m, opts['rebuild']):
+        if first_fresh(world, m, opts['rebuild'], world['borrowers'][got].get('mtime', {}).get(m, BORROWED_MTIME)):
             ref['allowed'][m] = set(['untouched'])
             ref['writes'][m] = 'never'
             continue
